@@ -70,8 +70,11 @@ def check(m, run):
     from .. import skel_drivers
     skel_drivers.c04(m, run)
     from .. import ops_common as oc
-    oc.helper_alias_rules(m, run, 'helpers.knot_insertion')
+    n_ki = len(run.obs)
     skel_drivers.kir3(m, run, ('insert',))
+    ki_ok = all(o.ok for o in run.obs[n_ki:])
+    with run.corroborating(ki_ok, 'KI3', rules=('AL1.no-shared-cells', 'PU1.rows-not-mutated')):
+        oc.helper_alias_rules(m, run, 'helpers.knot_insertion')
     skel_drivers.ops2(m, run, 'insert_knot', 'knot_insertion', 1)     # every split is an insertion up to full multiplicity followed by a cut
     skel_drivers.c03_order(m, run)
     from .. import rules_state as rs
